@@ -1,7 +1,7 @@
 (* C02 — Query results are exact at row level and block-granular for prefilters.
    Statements only. *)
 From BS Require Import Lib.Bytes Lib.Sublist Model.Json Model.Expr Model.MinMax Model.QueryFn
-  Proofs.ExprProofs Proofs.MinMaxProofs Proofs.QueryFnProofs.
+  Model.Matcher Proofs.ExprProofs Proofs.MinMaxProofs Proofs.QueryFnProofs Proofs.MatcherProofs.
 From Coq Require Import List.
 Import ListNotations.
 
@@ -42,3 +42,11 @@ Print Assumptions C02_strict_partition.
 Theorem C02_strict_minmax : forall b f nc, eval_pcond b (PMinMax f (Some nc)) = true -> assoc f (b_mm b) <> None.
 Proof. exact strict_minmax. Qed.
 Print Assumptions C02_strict_minmax.
+
+(* the compiled row matcher - condition table, monotone flags, early exit during the walk, lazy
+   regex phase, constant folding of nil / empty / unknown nodes - computes exactly the documented
+   semantics, for every row, query, tokenizer and regex oracle *)
+Theorem C02_compiled_matcher : forall tok re es qb qr,
+  compiled_match tok re qb qr es = (sat_bq tok es qb && sat_rq re es qr)%bool.
+Proof. exact compiled_match_correct. Qed.
+Print Assumptions C02_compiled_matcher.
